@@ -28,17 +28,20 @@ fn same(real: &SpanStack, m: &M) -> bool {
     ok
 }
 
-// BOUND: histories of at most 4 enter/exit operations over 3 span ids, stack depth <= 4
+// BOUND: histories enter x, enter y, enter z, exit u, exit v over span ids {1,2,3} (all 243 choices: re-entry of the
+// same span, out-of-order exits, exits of spans that were never entered); a fully free op sequence exceeded the 24 GB cap
 #[kani::proof]
 #[kani::unwind(7)]
 #[kani::stub(core::fmt::Formatter::pad, pad_stub)]
 fn c06_span_stack_mirrors_enter_exit_history_bounded() {
     let mut real = SpanStack::default();
     let mut m = M { n: 0, id: [0; 5], dup: [false; 5] };
+    let ids: [u64; 5] = nd();
+    let mut k = 0; while k < 5 { kani::assume(ids[k] >= 1 && ids[k] <= 3); k += 1; }
     let mut step = 0;
-    while step < 4 {
-        let is_push: bool = nd(); let x: u64 = nd(); kani::assume(x >= 1 && x <= 3);
-        if is_push {
+    while step < 5 {
+        let x = ids[step];
+        if step < 3 {
             let a = real.push(Id::from_u64(x)); let b = m.push(x);
             assert!(a == b, "C06.SpanStack.push.reports_first_entry_vs_duplicate");
         } else {
